@@ -19,11 +19,14 @@ from fractions import Fraction as Fr
 
 import numpy as np
 
+import c19_src
 from common import Ctx, Finding, Outcome
 
 PROPERTY = "C19"
-LEAN_TARGETS = ["QcelVerif.Props.C19", "QcelVerif.Lemmas.CompareSqrt", "QcelVerif.Model.CompareWide", "QcelVerif.Props.C19Wide", "QcelVerif.Driver.C19"]
+LEAN_TARGETS = ["QcelVerif.Props.C19", "QcelVerif.Lemmas.CompareSqrt", "QcelVerif.Model.CompareWide", "QcelVerif.Props.C19Wide", "QcelVerif.Driver.C19",
+                "QcelVerif.Model.CompareAst", "QcelVerif.Gen.CompareSrc", "QcelVerif.Props.C19Src"]
 DRIVER = "QcelVerif/Driver/C19.lean"
+TRANSLATORS = [c19_src.gen_compare_src]  # lean/QcelVerif/Gen/CompareSrc.lean <- qcelemental/testing.py (decision skeletons, by `ast`)
 THEOREMS = [
     ("QcelVerif.Compare.closeR_fin_iff", "finite reals: the isclose model is true <-> |c-e| <= atol + rtol*|e| (or c = e)"),
     ("QcelVerif.Compare.sqrtLe_iff", "complex data: the rational decision L<=0 or L^2<=4A^2R^2m2 used for moduli is equivalent over the reals to sqrt(d2) <= A + R*sqrt(m2) (A,R>=0)"),
@@ -68,10 +71,27 @@ THEOREMS = [
     ("QcelVerif.Compare.exactLeafW_arr", "exact leaf vs ndarray: no entry <-> the array has exactly one element equal to the leaf; otherwise exactly the mismatch entry (never an exception, never unmodelled) [restated after 91c6178]"),
     ("QcelVerif.Compare.compareValuesW_ragged", "ragged computed under a numeric leaf: verdict False (np.array raises inside the helper's try)"),
     ("QcelVerif.Compare.compare_molrecs_raises_iff", "compare_molrecs raises x <-> massage_dicts raises x on expected, or on computed after expected normalised, or x = ValueError from compare_recursive"),
+    # ---- source tie (Model/CompareAst.lean, Gen/CompareSrc.lean regenerated from testing.py, Props/C19Src.lean) ----
+    ("QcelVerif.CompareAst.handleReturnSrc_passes_verdict", "[source-derived] _handle_return as translated returns the boolean it was given - alone, or first in a pair when return_message is set"),
+    ("QcelVerif.CompareAst.compareValuesSrc_eq_model", "[source-derived] for ALL inputs, options and reporting options (0 < atol) the evaluator of compare_values' translated skeleton (handler default, passnone return, dtype rule, cast, shape test, log10(atol), np.isclose(cptd, xptd, rtol=rtol, atol=atol, equal_nan=equal_nan) + np.all, the equal_phase retry on -cptd, final return) answers what the hand model compareValues answers"),
+    ("QcelVerif.CompareAst.compareSrc_eq_model", "[source-derived] for ALL inputs and reporting options the evaluator of compare's translated skeleton (cast, shape test, xptd == cptd + .all(), retry on xptd == -cptd under try/except TypeError) answers what the hand model compareExact answers"),
+    ("QcelVerif.CompareAst.compareValuesSrc_true_iff", "[source-derived] headline: translated compare_values returns True <-> passnone applies, or both inputs cast to the common dtype, shapes are equal and every element of computed is close to expected's (or, with equal_phase only, every element of -computed)"),
+    ("QcelVerif.CompareAst.compareValuesSrc_real_iff", "[source-derived] finite real scalars, no options: translated compare_values is True <-> |computed - expected| <= atol + rtol*|expected| (or equal) - the tolerance scales with EXPECTED"),
+    ("QcelVerif.CompareAst.compareValuesSrc_array_iff", "[source-derived] headline on arrays: float arrays of finite values of any shape and size, no options: translated compare_values is True <-> equal shapes, equal sizes and every element has |computed_i - expected_i| <= atol + rtol*|expected_i| (or is equal)"),
+    ("QcelVerif.CompareAst.compareValuesSrc_nan_only_on_request", "[source-derived] a NaN on either side fails without equal_nan (also under the sign retry); NaN ~ NaN passes with it"),
+    ("QcelVerif.CompareAst.compareValuesSrc_phase_only_on_request", "[source-derived] with equal_phase=False the verdict is the plain all-close characterisation; turning the option on never turns a pass into a failure"),
+    ("QcelVerif.CompareAst.compareSrc_true_iff", "[source-derived] headline: translated compare returns True <-> same shape and all elements equal, or (equal_phase and a negatable dtype) all equal to the negated computed elements"),
+    ("QcelVerif.CompareAst.src_verdict_independent_of_reporting", "[source-derived] quiet / return_message / return_handler do not change the boolean either translated helper hands back"),
+    ("QcelVerif.CompareAst.recSrc_eq_model", "[source-derived] for ALL trees (mutual induction): the translated isinstance chain of _compare_recursive in source order (exact != with except ValueError, list vs str/bytes/dict entry, list walk with len != len and the zipped items' roles, dict vs non-dict entry, dict walk with both key-set differences and the intersection, float/np.number -> compare_values, ndarray -> floating? compare_values : compare, None identity, fall-through) yields exactly the wide model's error entries"),
+    ("QcelVerif.CompareAst.compareRecursiveSrc_eq_model", "[source-derived] for ALL inputs: compare_recursive's translated stages (atol >= 1 refusal; recursion; equal_phase stage: second recursion with equal_phase=True, prefixes [] / the entries' own names / the 'root.'-rootified list, removal guarded by `not in n_errors`; then the forgive stage: rootified list; each loop over sorted(errors) with _path_under(nomatch[0], prefix), errors.remove, break; _path_under = equality or startswith(prefix + '.')) over the translated per-node chain answer what the wide model compareRecursiveW answers"),
+    ("QcelVerif.CompareAst.compareRecursiveSrc_iff", "[source-derived] headline: translated compare_recursive returns True <-> atol < 1 and every error entry of the translated chain is phase-excused (listed and absent from the sign-tolerant recursion) or forgiven (at / below a forgive path, whole segments)"),
 ]
 TRUSTED_BASE = [
     "Lean 4.33 kernel; axioms per theorem audited on every run (subset of propext, Classical.choice, Quot.sound)",
-    "hand-written model Model/Compare.lean of testing.py (written against ca03624; its scope - no list-vs-str/dict/ndarray, no exact-leaf-vs-array pairs - is untouched by the later repairs up to HEAD 5bfcfbf), tied by differential correspondence on the generated stream",
+    "hand-written model Model/Compare.lean of testing.py (written against ca03624; its scope - no list-vs-str/dict/ndarray, no exact-leaf-vs-array pairs - is untouched by the later repairs up to HEAD 5bfcfbf), tied by differential correspondence on the generated stream; since the source tie (below) the CONTROL SKELETON of compareValues / compareExact / the per-node dispatch of recErrsW is no longer trusted: it is proved equal to the evaluator of terms regenerated from testing.py on every run",
+    "source tie: harness/c19_src.py (reads _handle_return, compare_values, compare, _compare_recursive of the working tree by `ast`, emits Gen/CompareSrc.lean; any unrecognised shape raises) and the evaluator of Model/CompareAst.lean (what a translated term MEANS: sequential statements, short-circuit conditions, which list goes into which position of closeR / closeC / scEq, try/except TypeError around the negated ==, the handler call; first matching isinstance guard, key-set differences, len test, zip truncation). Trusted there: the translator's reading of Python syntax, the evaluator, the isinstance table instOf (bool is an int, np.float64 a float and np.number, np.complex128 a complex and np.number, np.int64 only np.number, np.bool_ none of these; list and tuple are one Tree.list), the message -> tag table, and that statements which only build message text (string formatting, diff arrays, logging; checked syntactically to bind no recorded name, to contain no return / raise and to only read the arrays) neither raise nor change the verdict - the last point is differential only",
+    "numpy is still a parameter of BOTH sides of the source tie: the translated skeleton is evaluated over the same flatten / Flat.kind / castF / castC / closeR / closeC / scEq / Sc.negate / asSeq as the hand model (so np.isclose's own formula, casting and broadcasting are not tied by it)",
+    "compare_recursive's top-level stages and _path_under are translated too (TopProg: refusal operator and bound, first / second recursion arguments, stage order, prefix lists, loop shape) and proved equal to phaseStage / forgiveStage / pathUnder; trusted there: the evaluator's reading of the nested loop (list.remove on a missing element raises, break ends the inner loop, iteration over the sorted COPY), that `len('\\n'.join(message)) == 0` means no entry is left (two non-empty lines per entry: read by the translator, which accepts only that exact message code), Python's `errors and equal_phase` truthiness as PhaseOpt.truthy. compare_molrecs / massage_dicts and ProtoModel.compare stay hand models (ConstTie ties their keys / defaults / forwarding)",
     "hand-written extension Model/CompareWide.lean of /repo HEAD 5bfcfbf (incl. the repairs 91c6178, 8b4dd2e, ef204ac): wide recursion (testing.py:314-396 on list-vs-str/dict/ndarray, exact-leaf-vs-array, ragged computed), massage_dicts + compare_molrecs (testing.py:518-617) on the RAW records, ProtoModel.compare (basemodels.py:181-198) with the keyword defaults; tied by the W / M / P protocol lines (raw dictionaries and real model instances go through the line protocol); every R line is also run through the wide model inside the driver ('inconsistent' if the two models differ)",
     "numpy behaviour taken as parameter and folded into the model: np.array(dtype=float|complex) casting, shape inference, np.isclose, ==, unary minus; truth value of an element-wise != (size 1: the element, otherwise ValueError, which the code catches and counts as a mismatch); iteration over an ndarray (rows / numpy scalars); np.array on ragged input raises; IEEE evaluation is only relied on where exact or decided by a 2^-40 relative margin",
     "Python semantics folded into the model: min/max return the first argument on ties, list.sort is stable and tuples order lexicographically, int() truncates toward zero, dict.pop raises KeyError, tuple unpacking of a wrong-length tuple raises ValueError",
@@ -110,7 +130,8 @@ RULE = (
     "the tolerance edge, version, other provenance field, missing version, bonds reversed / permuted / np.int64 / list-typed / order perturbed / "
     "extra / malformed, plus a directed family of 2-4 random bonds re-listed in shuffled order with reversed pairs (ties on the first atom) or one bond changed, separators as np.int64 / ndarray / floats / NaN / None, units, files, dropped key, geom list-vs-ndarray), default or explicit "
     "tolerances, forgive lists, relative_geoms exact/other, through compare_molrecs itself. "
-    "A case is distinct by its line and non-trivial when computed differs from expected or an option is non-default."
+    "A case is distinct by its line and non-trivial when computed differs from expected or an option is non-default. "
+    "Three-way: every V / E / R / W line is answered by the driver from the hand model AND from the skeleton regenerated from testing.py (V / E under four reporting variants); a difference is a broken tie."
 )
 LEVEL_TEXT = (
     "proof for the decision logic of the model: characterisation theorems for compare_values / compare, and the full compare_recursive_iff "
@@ -118,13 +139,20 @@ LEVEL_TEXT = (
     "extension: the wide recursion (list vs str/dict = one error entry, list vs ndarray = its rows, exact leaf vs array = mismatch unless ONE equal element, "
     "ragged computed, arbitrary key text) with compare_recursiveW_iff / _raises_iff (only atol >= 1 raises) and a PROVED conservative-extension theorem back to the narrow model; compare_molrecs modelled on the raw "
     "records (normalisation characterised field by field, verdict and exception characterisation proved); ProtoModel.compare = compare_recursive with "
-    "the keyword defaults. limits (partial): float behaviour is exact only on representable / wide-margin cases; the models are tied to the code by "
+    "the keyword defaults. SOURCE TIE (new): the decision skeletons of _handle_return, compare_values, compare and the isinstance chain of _compare_recursive are "
+    "regenerated from testing.py on every run as terms of a small AST and PROVED, for all inputs, to evaluate to what the hand models answer "
+    "(compareValuesSrc_eq_model, compareSrc_eq_model, recSrc_eq_model, compareRecursiveSrc_eq_model), so the headline theorems are restated over the source-derived functions; a changed "
+    "argument order in np.isclose, a hard-wired equal_nan, a retry that negates nothing or the wrong side, another aggregation, a reordered / altered "
+    "isinstance chain, a one-sided key-set test or another length operator breaks a proof obligation of Props/C19Src.lean (and the driver reports src-differs "
+    "on every affected line: three-way); compare_recursive's own stages (atol refusal, equal_phase filter, forgive filter, _path_under) are translated and proved "
+    "equal to the model's stages as well (compareRecursiveSrc_eq_model). partial there: numpy stays a parameter on both sides of the tie; message-only statements "
+    "are assumed not to raise; compare_molrecs / ProtoModel.compare are not translated (ConstTie only). limits (partial): float behaviour is exact only on representable / wide-margin cases; the models are tied to the code by "
     "sampled correspondence; compare_recursiveW_iff is stated over the recursion's error-entry names (the declarative ErrAt description is proved for the "
     "narrow scope only, the new pairs are reduced to it by recErrsW_list_strdict / recErrsW_list_seq / exactLeafW_arr / compareValuesW_ragged); that dotted names identify nodes "
     "uniquely when no key contains '.' is not proved in Lean - it is checked on every R line by running the dotted-name and the segment-sequence oracle "
     "side by side; relative_geoms='align' is not modelled; one open known finding: dotted names alias when a key contains '.' (oracle:dotted_key_path_alias)"
 )
-TECHNIQUE = "Lean 4 proof over a hand-written model + behavioural correspondence (line protocol) + independent exact-rational oracle"
+TECHNIQUE = "Lean 4 proof over a hand-written model + source-derived decision skeletons (ast translator, evaluator, equality theorems for all inputs) + behavioural correspondence (line protocol, three-way) + independent exact-rational oracle"
 
 logging.disable(logging.CRITICAL)
 
@@ -1298,6 +1326,15 @@ def check_line(ctx, out: Outcome, block, line, model_line, via=None, variant_rng
         if impl3 != impl:
             out.violations.append(Finding("oracle:identity_changes_verdict", dict(case, shared_objects=True), observed=impl3, expected=impl,
                                           detail="the verdict differs when equal sub-structures of expected and computed are the same Python objects"))
+    # three-way: the driver also ran the SOURCE-DERIVED skeleton (Gen/CompareSrc.lean) and it disagrees with the hand model
+    if model_line is not None and model_line.startswith("src-differs;"):
+        _, hand, srcv = model_line.split(";", 2)
+        out.mismatches.append(Finding("three-way:source_vs_model", case, observed=srcv, expected=hand,
+                                      detail=f"the skeleton translated from testing.py answers {srcv}, the hand model {hand}, the implementation {impl}"))
+        out.count("three-way:src-differs")
+        model_line = hand
+    elif model_line is not None and op in "VERW":
+        out.count("three-way:agree")
     # correspondence
     if model_line is not None and model_line != impl:
         out.mismatches.append(Finding("mismatch", case, observed=impl, expected=model_line, detail="implementation vs Lean model"))
